@@ -12,8 +12,9 @@ trusted is that `threading.Lock` provides mutual exclusion and that one datastor
 CheckTrialEarlyStoppingState, DeleteStudy, CreateStudy pairs are decided by the exhaustive
 schedule exploration on the real code only (stated as partial).  For MORE than two clients the lock-level
 statement is proved for any number of threads (`c04_lock_gives_atomic_sections_n`: the result is the
-serial execution of the sections in the order the lock was acquired); the unguarded study check in front
-of the sections is covered for pairs only.
+serial execution of the sections in the order the lock was acquired), and so is the check-then-section
+statement (`c04_study_lock_rpcs_serialisable_n` in `Props/C04N.lean`: any number of study-lock RPCs, any
+complete schedule of their unguarded checks and critical sections).
 -/
 import VizierModel.Lemmas.ConcInst
 import VizierModel.Lemmas.ConcLock
